@@ -472,6 +472,11 @@ func Run(t *simkit.Tape, o *simkit.Outcome, full bool) {
 	if res.Aborted {
 		o.Probe("step-budget-reached-run-completed-serially")
 	}
+	if res.Stalls > 0 {
+		// the code under test blocks in real primitives: schedules are no longer
+		// fully owned by the tape (documented limit), results are still judged
+		o.ProbeN("turn-taken-over-from-blocked-holder", res.Stalls)
+	}
 	if res.Interleaved {
 		o.Probe("tasks-interleaved")
 	}
